@@ -357,3 +357,97 @@ class CollectionFromDicts(Contract):
 
     def frame_ok(self, I, inp, obj, name):
         return isinstance(obj, dict) or False
+
+
+@register
+class LoadRuleset(Contract):
+    """SigmaCollection.load_ruleset: every resolved path (replaced or skipped by on_beforeload) is loaded with filters collected and
+    references NOT resolved (whether or not hooks are set - a file need not contain what it refers to); the per-file collection (replaced or
+    skipped by on_load, where only None means skip - a collection holding only filters is kept) is merged in path order; references are
+    resolved once, on the merged collection, iff asked for"""
+    id = "C09.SigmaCollection.load_ruleset"
+    target = "sigma.collection:SigmaCollection.load_ruleset"
+    props = ("C09", "C11", "C07")
+    cases = tuple((bl, ol, rr) for bl in ("none", "identity", "skip-first") for ol in ("none", "identity", "skip-second", "replace") for rr in (True, False))
+    assumed = ["path.open is external (a file object); SigmaRuleLocation abstract; two paths"]
+
+    def setup(self, E):
+        E._c09_lr = {"loaded": [], "merged": [], "resolved": 0}
+        t = E._c09_lr
+
+        def from_yaml(I, so, a, k):
+            col = SObj("FileCollection", {"n": len(t["loaded"]), "__len__": NativeFn("__len__", lambda I2, a2, k2: 0), "__bool__": NativeFn("__bool__", lambda I2, a2, k2: False)})     # a file with filters only: no rules
+            t["loaded"].append((list(a), dict(k), col))
+            return col
+        E.summaries["sigma.collection:SigmaCollection.from_yaml"] = from_yaml
+
+        def merge(I, so, a, k):
+            t["merged"].append((list(ops.iterate(I, a[0], None)), dict(k)))
+            return SObj("Merged", {"resolve_rule_references": NativeFn("rrr", lambda I2, a2, k2: t.__setitem__("resolved", t["resolved"] + 1))})
+        E.summaries["sigma.collection:SigmaCollection.merge"] = merge
+        E.summaries["sigma.exceptions:SigmaRuleLocation"] = lambda I, so, a, k: SObj("Location", {"path": a[0]})
+
+    def args(self, I, case):
+        bl, ol, rr = case
+        t = I.E._c09_lr
+        t["loaded"].clear(); t["merged"].clear(); t["resolved"] = 0
+
+        class _Fd:
+            def __init__(self, p):
+                self.p = p
+
+            def as_context(self, I2):
+                outer = self
+
+                class H:
+                    value = SObj("File", {"of": outer.p})
+
+                    def exit(self, I3, exc):
+                        return False
+                return H()
+        paths = [SObj("Path", {"n": i}) for i in range(2)]
+        for p in paths:
+            p.fields["open"] = NativeFn("open", (lambda p: lambda I2, a, k: _Fd(p))(p))
+        I.E.summaries["sigma.collection:SigmaCollection.resolve_paths"] = lambda I2, so, a, k: list(paths)
+        repl = SObj("ReplacementCollection", {})
+        before = {"none": None, "identity": NativeFn("obl", lambda I2, a, k: a[0]), "skip-first": NativeFn("obl", lambda I2, a, k: None if a[0] is paths[0] else a[0])}[bl]
+        calls = []
+
+        def on_load(I2, a, k):
+            calls.append(list(a))
+            if ol == "identity":
+                return a[1]
+            if ol == "replace":
+                return repl
+            return None if len(calls) == 2 else a[1]
+        after = None if ol == "none" else NativeFn("ol", on_load)
+        ce = I.fresh("collect_errors", "bool")
+        return {"self": ClassRef(I.E.index.lookup("sigma.collection:SigmaCollection")), "args": [["dir"], ce, before, after, "**/*.yml", rr], "paths": paths, "repl": repl, "ce": ce, "calls": calls, "case": case}
+
+    def post(self, I, inp, r):
+        bl, ol, rr = inp["case"]
+        c, t = I.ctx, I.E._c09_lr
+        used = [p for p in inp["paths"] if not (bl == "skip-first" and p is inp["paths"][0])]
+        c.require(len(t["loaded"]) == len(used), "every path that on_beforeload does not skip is loaded once")
+        for (a, k, col), p in zip(t["loaded"], used):
+            c.require(isinstance(a[0], SObj) and a[0].cls == "File" and a[0].fields["of"] is p and a[1] is inp["ce"], "loaded from that path's file with the caller's collect_errors")
+            c.require(k.get("collect_filters") is True and k.get("resolve_references") is False and isinstance(k.get("source"), SObj) and k["source"].fields["path"] is p,
+                      "per-file collections keep their filters and do NOT resolve references (also when hooks are set); the source location is the path")
+        want = []
+        for i, (a, k, col) in enumerate(t["loaded"]):
+            if ol in ("none", "identity"):
+                want.append(col)
+            elif ol == "replace":
+                want.append(inp["repl"])
+            elif i != 1:
+                want.append(col)
+        ok = len(t["merged"]) == 1
+        c.require(ok, "one merge")
+        if ok:
+            got, k = t["merged"][0]
+            c.require(len(got) == len(want) and all(x is y for x, y in zip(got, want)), "the merge gets what on_load returned for every file, in path order - only None is skipped (a collection without rules, e.g. filters only, is kept)")
+            c.require(k.get("resolve_references") is False, "the merge itself does not resolve")
+        c.require(t["resolved"] == (1 if rr else 0), "references are resolved once on the merged collection iff asked for")
+
+    def frame_ok(self, I, inp, obj, name):
+        return False
